@@ -10,7 +10,11 @@ from the route SPEC) and checks, on what the real code produced,
   * the generated files are byte-identical (hash-identical) with and without the foreign set,
   * the resulting statuses of all other objects are identical with and without it,
   * status entries written by other controllers come out of the real setters unchanged (content, order),
-    and an object whose setter reports "no change" is untouched.
+    and an object whose setter reports "no change" is untouched,
+  * (`lead` lines) through the real LeaderAwareGroupUpdater: no write before `Enable`, and no request at or
+    after it for an object that is foreign in the cluster as of the last batch processed.
+SnippetsFilters are NGF's own CRD (always written); one that only foreign Routes reference may be added to the
+foreign set: it must not change the files nor the status of anything else.
 Core Lean only.
 -/
 namespace NGF.Ownership
@@ -41,14 +45,22 @@ def foreignKeys (cfg : Cfg) (s : State) : List String :=
   ((s.policies.filter (foreignPolicy cfg s)).map (fun p => (Target.policy p.gvk p.nn).key)) ++
   ((s.btps.filter (foreignBtp cfg s)).map (fun b => (Target.btp b.nn).key))
 
-/-- keys of the objects that may be removed without any effect (`noninterference_foreign`) -/
+/-- a Route that is not foreign names the SnippetsFilter (its own namespace) in an ExtensionRef filter -/
+def snippetReferencedByOurs (cfg : Cfg) (s : State) (sf : NN) : Bool :=
+  s.routes.any (fun r => !foreignRoute cfg s r && decide (r.kind ≠ .tls) && decide (r.nn.ns = sf.ns) &&
+    r.sfRefs.contains sf.name)
+
+/-- keys of the objects that may be removed without any effect on the configuration and on the statuses of all
+OTHER objects (`noninterference_foreign`, `unreferenced_snippets_removable`): the foreign objects, and the
+SnippetsFilters that no Route of ours references (they keep getting their own status: NGF's CRD) -/
 def droppableKeys (cfg : Cfg) (s : State) : List String :=
   ((s.classes.filter (fun c => foreignClass cfg c && decide (c.name ≠ cfg.gcName))).map
     (fun c => (Target.cls c.name).key)) ++
   ((s.gws.filter (foreignGw cfg)).map (fun g => (Target.gw g.nn).key)) ++
   ((s.routes.filter (foreignRoute cfg s)).map (fun r => (Target.route r.kind r.nn).key)) ++
   ((s.policies.filter (foreignPolicy cfg s)).map (fun p => (Target.policy p.gvk p.nn).key)) ++
-  ((s.btps.filter (foreignBtp cfg s)).map (fun b => (Target.btp b.nn).key))
+  ((s.btps.filter (foreignBtp cfg s)).map (fun b => (Target.btp b.nn).key)) ++
+  ((s.snippets.filter (fun sf => !snippetReferencedByOurs cfg s sf)).map (fun n => (Target.snippet n).key))
 
 /-- what happened to one object that a real status setter was run on -/
 structure Kept where
@@ -78,6 +90,11 @@ structure JIn where
   kept : List Kept
   nochange : Bool
   panic : String
+  /- `lead` lines (ownership-changing history through the REAL LeaderAwareGroupUpdater): `st` is the cluster as
+     of the last batch processed before the operation -/
+  phase : String := ""          -- "pre" (not leader yet) | "enable" | "post"
+  reqs : List String := []      -- objects the real Updater was asked to write during the operation (client Get)
+  writes : List String := []    -- objects whose status was written during the operation (client Status().Update)
 
 inductive Verdict
   | ok
@@ -95,19 +112,43 @@ def overlap (a b : List String) : Bool := a.any (fun x => b.contains x)
 def histCompare (b : String) (as fs : List String) : Nat :=
   if as.contains b then 0 else if !fs.contains b then 1 else if overlap as fs then 2 else 3
 
+/-- keys the generator declares without a counterpart in the model state (Secrets, ConfigMaps, Services of the
+foreign set): accepted on trust, they never are request targets -/
+def isAuxKey (k : String) : Bool := k.startsWith "aux:"
+
+def isSnippetKey (k : String) : Bool := k.startsWith "snip/"
+
+/-- **Leadership clause**: nothing is written while the replica is not the leader; every request the Updater
+receives at or after `Enable` addresses an object that is not foreign in the cluster as of the last batch
+processed before it (and none at all under a foreign-controlled configured-name class). -/
+def judgeLead (j : JIn) : Verdict :=
+  if j.panic != "" then .skip ("panic " ++ j.panic)
+  else
+  let touched := j.reqs ++ j.writes
+  if j.phase == "pre" then
+    (match touched.head? with
+     | some k => .fail "no_write_before_enable" k
+     | none => .ok)
+  else if disabledSpec j.cfg j.st && !touched.isEmpty then
+    .fail "foreign_class_disables_all" ("leader write for " ++ touched.headD "")
+  else match firstIn touched (foreignKeys j.cfg j.st) with
+  | some k => .fail "no_foreign_write_across_leadership" k
+  | none => .ok
+
 def judge (j : JIn) : Verdict :=
+  if j.kind == "lead" then judgeLead j else
   let isHist := j.kind == "hist" || j.kind == "histp"
   if j.panic != "" then
     (if j.kind == "meta" && !j.filesA.isEmpty then .fail "panic_with_foreign" j.panic else .skip ("panic " ++ j.panic))
   else
   let dis := disabledSpec j.cfg j.st
   let drop := droppableKeys j.cfg j.st
-  match j.x.find? (fun k => !drop.contains k) with
+  match j.x.find? (fun k => !drop.contains k && !isAuxKey k) with
   | some k => .skip ("x-not-foreign " ++ k)
   | none =>
   -- no status output for foreign objects
   if dis && !j.targets.isEmpty then .fail "foreign_class_disables_all" ("request for " ++ j.targets.headD "")
-  else match firstIn j.targets (foreignKeys j.cfg j.st ++ j.x) with
+  else match firstIn j.targets (foreignKeys j.cfg j.st ++ j.x.filter (fun k => !isSnippetKey k)) with
   | some k => .fail "no_request_for_foreign" k
   | none =>
   -- entries of other controllers survive the real setters
